@@ -1389,6 +1389,9 @@ fn run_generic<B: Bk>(sc: &BScenario, replay: Option<Vec<Decision>>, trace: bool
         RunEnd::Violation(v) => violation = Some(v),
         RunEnd::StepCap => step_cap_hit = true,
         RunEnd::Diverged(e) => diverged = Some(e),
+        RunEnd::Deadlock(d) => {
+            violation = Some(engine::violation("C15", "no_progress", format!("no thread can move: {d} wait for a lock that is never released")))
+        }
     }
     // epilogue 1: cancel whatever is pending, let every client return what it holds, run every
     // worker to completion
